@@ -13,13 +13,14 @@ import (
 
 func init() {
 	property("C17",
-		"Static determinism and independence: (a) every range over a map only fills a set/map or a slice that is sorted before any other use; (b) no function outside package initialisation writes a package-level variable or a map/slice held in one (no state survives a compilation); (c) library code contains no goroutine, channel operation, select, or call into time / math/rand / crypto/rand / environment lookups, and reads files only in LoadFontConfig and main; (d) Emitter fields are written only by New, no emitter function updates a map it did not create itself (the text-label set is filled only in Emit), and the Parser fields written while parsing are exactly the token window, the scope stacks, the font cache, the constant table and the hoisting tables the property allows.",
+		"Static determinism and independence: (a) every range over a map only fills a set/map or a slice that is sorted before any other use; (b) no function outside package initialisation writes a package-level variable or a map/slice held in one (no state survives a compilation); (e) the blank line between top-level outputs is written exactly when something was emitted before: its guard reads a counter that goes up by one with every emitted output and with nothing else (not the position of the statement in the file, which also counts statements emitted elsewhere); (c) library code contains no goroutine, channel operation, select, or call into time / math/rand / crypto/rand / environment lookups, and reads files only in LoadFontConfig and main; (d) Emitter fields are written only by New, no emitter function updates a map it did not create itself (the text-label set is filled only in Emit), and the Parser fields written while parsing are exactly the token window, the scope stacks, the font cache, the constant table and the hoisting tables the property allows.",
 		[]string{"determinism of the Go runtime and of the standard-library functions used (fmt, strings, sort, strconv, regexp, encoding/json)", "go/ssa lowering is faithful to the source"},
-		"C17.a", "C17.b", "C17.c", "C17.d", "C20.a", "C06.b")
+		"C17.a", "C17.b", "C17.c", "C17.d", "C17.e", "C20.a", "C06.b")
 
 	register(&Rule{ID: "C17.a", Doc: "map iteration is order-insensitive (fills a set, or a slice sorted before use)", Floor: 4, Run: c17a})
 	register(&Rule{ID: "C17.b", Doc: "no package-level state is written outside init", Floor: 1, Run: c17b})
 	register(&Rule{ID: "C17.c", Doc: "no goroutines, channels, clocks, randomness or environment in library code; files read only in LoadFontConfig/main", Floor: 3, Run: c17c})
+	register(&Rule{ID: "C17.e", Doc: "the separator between top-level outputs depends only on whether something was emitted before", Floor: 3, Run: c17e})
 	register(&Rule{ID: "C17.d", Doc: "emitter state is immutable after New; parser cross-statement state is the allowed set", Floor: 3, Run: c17d})
 }
 
@@ -524,4 +525,118 @@ func holdsReference(t types.Type, depth int) bool {
 // stdReceiverReadOnly: methods of library types that read their receiver only.
 func stdReceiverReadOnly(n string) bool {
 	return strings.HasPrefix(n, "(*regexp.Regexp).") || strings.HasPrefix(n, "(*strings.Replacer).")
+}
+
+// c17e: Emit separates the outputs of top-level statements by a blank line. Whether one is
+// written before an output must depend on nothing but "was anything emitted before": the guard
+// of every separator reads a counter that starts at 0 and goes up by one on exactly those ways
+// round the statement loop that wrote an output (a text statement is skipped there and emitted
+// later; counting it, or reading the loop index, makes the first emitted output depend on the
+// text statements that precede it in the file).
+func c17e(c *Ctx) {
+	fn := c.Fn("emitter.Emitter.Emit")
+	if fn == nil {
+		return
+	}
+	sbv := returnedBuilder(fn)
+	if sbv == nil {
+		c.Bad("Emit/builder", c.W.FuncPos(fn), "cannot find the builder whose text Emit returns")
+		return
+	}
+	isOut := func(in ssa.Instruction) (bool, bool) { // (writes into the builder, is a separator)
+		ci, ok := in.(ssa.CallInstruction)
+		if !ok || !strings.HasPrefix(calleeName(ci), "(*strings.Builder).Write") || ci.Common().Args[0] != sbv {
+			return false, false
+		}
+		s, isC := strConst(ci.Common().Args[1])
+		return true, isC && s == "\n"
+	}
+	// candidate counters: header phis 0 / +1
+	type counter struct {
+		phi  *ssa.Phi
+		head *ssa.BasicBlock
+	}
+	var counters []counter
+	instrs(fn, func(in ssa.Instruction) {
+		p, ok := in.(*ssa.Phi)
+		if !ok || !isLoopHeader(p.Block()) {
+			return
+		}
+		zero := false
+		for i, e := range p.Edges {
+			if k, isC := intConst(e); isC && k == 0 && !p.Block().Dominates(p.Block().Preds[i]) {
+				zero = true
+			}
+		}
+		if zero {
+			counters = append(counters, counter{p, p.Block()})
+		}
+	})
+	nSep := 0
+	for _, b := range fn.Blocks {
+		for _, in := range b.Instrs {
+			w, sep := isOut(in)
+			if !w || !sep {
+				continue
+			}
+			nSep++
+			pos := c.W.Pos(in.Pos())
+			key := fmt.Sprintf("Emit/separator#%d", nSep)
+			// the counter its guard reads
+			var used *counter
+			for _, l := range c.mustLits(fn, b) {
+				if !strings.HasPrefix(l, "+(0 < ") {
+					continue
+				}
+				for i := range counters {
+					if strings.Contains(l, stripLoopTags(c.term(fn, counters[i].phi))) || strings.Contains(stripLoopTags(l), stripLoopTags(c.term(fn, counters[i].phi))) {
+						used = &counters[i]
+					}
+				}
+			}
+			if used == nil {
+				c.Bad(key+"/guard", pos, "the separator is not written under 'the counter of emitted outputs is positive'")
+				continue
+			}
+			// the counter goes up by one exactly on the ways round its loop that wrote an output
+			body := loopBody(used.head)
+			okCount := true
+			why := ""
+			for i, e := range used.phi.Edges {
+				pred := used.head.Preds[i]
+				if !used.head.Dominates(pred) {
+					continue
+				}
+				inc := false
+				if bo, ok := e.(*ssa.BinOp); ok && bo.Op == token.ADD && bo.X == ssa.Value(used.phi) {
+					if k, isC := intConst(bo.Y); isC && k == 1 {
+						inc = true
+					}
+				}
+				isW := func(x ssa.Instruction) bool {
+					w, sep := isOut(x)
+					return w && !sep && body[x.Block()]
+				}
+				last := pred.Instrs[len(pred.Instrs)-1]
+				_, canSkip := existsPath(pathQuery{from: point{used.head, 0}, avoid: isW, target: func(x ssa.Instruction) bool { return x == last }, stopAt: func(x ssa.Instruction) bool { return !body[x.Block()] }})
+				_, canWrite := existsPath(pathQuery{from: point{used.head, 0}, target: func(x ssa.Instruction) bool {
+					if !isW(x) {
+						return false
+					}
+					_, on := existsPath(pathQuery{from: after(x), target: func(y ssa.Instruction) bool { return y == last }, stopAt: func(y ssa.Instruction) bool { return y.Block() == used.head && y == used.head.Instrs[0] }})
+					return on
+				}})
+				switch {
+				case inc && canSkip:
+					okCount, why = false, "the counter is incremented on a way round the loop that writes no output"
+				case !inc && e == ssa.Value(used.phi) && canWrite:
+					okCount, why = false, "an output is written on a way round the loop that does not count it"
+				case !inc && e != ssa.Value(used.phi):
+					okCount, why = false, "the counter is changed other than by +1 ("+pretty(c.term(fn, e))+")"
+				}
+			}
+			c.Check(okCount, key+"/counts-emitted-outputs", pos, "the guard's counter goes up by one exactly when an output was written", why+": the separator would depend on statements that are emitted elsewhere or not at all")
+		}
+	}
+	c.Check(nSep >= 1, "Emit/separators", c.W.FuncPos(fn), fmt.Sprintf("%d separator writes", nSep), "no blank-line separator between top-level outputs found")
 }
